@@ -109,7 +109,7 @@ impl Property for C06 {
         "fault_enumeration"
     }
     fn rule(&self) -> String {
-        "cases: call histories as for C05 (all 22 mutators, arbitrary arguments incl. ill-typed reserved values, id removal / other id, oversize values, sequence number 2^64-1, keys of every family incl. the variable-length-signature scheme), each run once fault-free and then re-run with an injected signer failure at EVERY signing call of the history (fault key wrapping the real key); bounded-exhaustive part: all sequences of length <= 2 over the operation alphabet (52 concrete calls) from 5 initial records, again with every fault position. Oracle: whenever a call returns Err, the record is observably identical to the pre-state (seq, node id, signature, pairs, encoding, public key) and still verifies (library and independent verifier). Non-trivial: a history in which at least one update fails (every update would have changed at least the sequence number, so atomicity is at stake); the evidence lists the (mutator x error cause) cells reached. Distinct by hash of the history.".into()
+        "cases: call histories as for C05 (all 22 mutators, arbitrary arguments incl. ill-typed reserved values, id removal / other id, oversize values, sequence number 2^64-1, keys of every family incl. the variable-length-signature scheme), each run once fault-free and then re-run with an injected signer failure at EVERY signing call of the history (fault key wrapping the real key); bounded-exhaustive part: all sequences of length <= 2 over the operation alphabet (61 to 65 concrete calls depending on the family, incl. the identity operations clone / re-decode / re-parse / serde / clone_from) from 5 initial records, again with every fault position. Oracle: whenever a call returns Err, the record is observably identical to the pre-state (seq, node id, signature, pairs, encoding, public key) and still verifies (library and independent verifier). Non-trivial: a history in which at least one update fails (every update would have changed at least the sequence number, so atomicity is at stake); the evidence lists the (mutator x error cause) cells reached. Distinct by hash of the history.".into()
     }
     fn assumptions(&self) -> Vec<String> {
         vec![
@@ -132,7 +132,7 @@ impl Property for C06 {
     }
     fn enumerate(&self, quick: bool) -> Box<dyn Iterator<Item = Case> + Send + '_> {
         if quick {
-            Box::new([FamId::K256, FamId::Var].into_iter().flat_map(|f| history::exhaustive(f, 2)).map(Case::Hist))
+            Box::new([FamId::K256, FamId::Var].into_iter().flat_map(|f| history::exhaustive(f, 2)).chain(history::depth1_rest(&[FamId::K256, FamId::Var])).map(Case::Hist))
         } else {
             let d3 = [FamId::K256].into_iter().flat_map(|f| history::exhaustive(f, 3));
             let d2 = ALL_FAMS.into_iter().filter(|f| *f != FamId::K256).flat_map(|f| history::exhaustive(f, 2));
